@@ -98,6 +98,13 @@ def points(tier):
                         pts.append({"sec": sec, "ver": ver, "case": case, "items": [list(a), ["<dup>"] + list(a[1:])], "other": 0})
                         pts.append({"sec": sec, "ver": ver, "case": case,
                                     "items": [list(a), ["<dup>", "", "other value", "other descr"], list(a)], "other": 0})
+    # items placed at the FRONT of their section (ahead of VERS / WRAP, ahead of STRT)
+    for sec in ("Version", "Well", "Parameter"):
+        for ver in (2.0, 1.2):
+            for a in pal:
+                if conformant(a, sec) and a[0] != "":
+                    pts.append({"sec": sec, "ver": ver, "case": "upper", "items": [list(a)], "other": 0, "front": True})
+                    pts.append({"sec": sec, "ver": ver, "case": "preserve", "items": [list(a), ["<dup>"] + list(a[1:])], "other": 0, "front": True})
     for oi in range(1, len(OTHERS)):
         for ver in (2.0, 1.2):
             pts.append({"sec": "Parameter", "ver": ver, "case": "upper", "items": [["A", "m", "x", "d"]], "other": oi})
@@ -135,8 +142,11 @@ def build(pt):
             las.curves.append(CurveItem(mn, unit, value, descr, np.array([10.0 + j, 20.0 + j, 30.0 + j])))
     else:
         target = {"Version": las.version, "Well": las.well, "Parameter": las.params}[sec]
-        for (mn, unit, value, descr) in items:
-            target.append(HeaderItem(mn, unit, value, descr))
+        for k, (mn, unit, value, descr) in enumerate(items):
+            if pt.get("front"):
+                target.insert(k, HeaderItem(mn, unit, value, descr))   # ahead of VERS / STRT / the first parameter
+            else:
+                target.append(HeaderItem(mn, unit, value, descr))
     if sec != "Parameter":
         las.params.append(HeaderItem("P0", "u", 1, "fixed param"))
     las.other = OTHERS[pt["other"]]
@@ -228,9 +238,13 @@ def check_point(pt):
     # the same text read with the other two mnemonic_case options, and once more with this point's: each read maps the
     # mnemonics by its own case function only (nothing sticks from a read with another option)
     others = [c for c in ("upper", "preserve", "lower") if c != pt["case"]]
-    for oc in others + [pt["case"]]:
+    for oc in others + [pt["case"], pt["case"] + "+ignore_data"]:
         try:
-            bo = lasio.read(text, mnemonic_case=oc)
+            if oc.endswith("+ignore_data"):
+                oc = pt["case"]
+                bo = lasio.read(text, mnemonic_case=oc, ignore_data=True)   # header-only read: the same header
+            else:
+                bo = lasio.read(text, mnemonic_case=oc)
         except Exception as e:
             return [V("read-raises", "own output readable (mnemonic_case=%s)" % oc, "%s: %s" % (type(e).__name__, str(e)[:160]), text)], nontriv, "ok", {}, 3
         vio = compare(dict(pt, case=oc), before, snapshot(bo), text, V, "other-case-read(%s):" % oc)
